@@ -161,7 +161,13 @@ static void st_shm_diff(void) { PShm *a = p_shm_new(nm, 3 * 4096, P_SHM_ACCESS_R
 static void st_shmbuf(void) { PShmBuffer *a = p_shm_buffer_new(nm, 9000, NULL), *b = p_shm_buffer_new(nm, 9000, NULL), *c = p_shm_buffer_new(nm, 20000, NULL); char x[4] = "abc"; if (a) p_shm_buffer_write(a, x, 3, NULL); if (b) p_shm_buffer_read(b, x, 3, NULL); p_shm_buffer_free(c); p_shm_buffer_free(b); if (a) p_shm_buffer_take_ownership(a); p_shm_buffer_free(a); }
 static void st_shm_bad(void) { PError *e = NULL; PShm *a = p_shm_new(nm, 0, P_SHM_ACCESS_READWRITE, &e); p_shm_free(a); p_error_free(e); }
 static void st_thread(void) { PUThread *t = p_uthread_create(thr_body_tls, NULL, TRUE, "worker"); if (t) { p_uthread_join(t); p_uthread_unref(t); } }
-static void st_detached(void) { PUThread *t = p_uthread_create(thr_body, NULL, FALSE, NULL); struct timespec ts = {0, 20000000}; if (t) p_uthread_unref(t); nanosleep(&ts, NULL); }
+static void st_detached(void)
+{   /* a detached thread cannot be joined: wait (bounded) until its exit-time clean-up has released the handle, then the ledgers are judged */
+    long before = live_blocks; PUThread *t = p_uthread_create(thr_body, NULL, FALSE, NULL); struct timespec ts = {0, 5000000}; int i;
+    if (t) p_uthread_unref(t);
+    for (i = 0; i < 600 && live_blocks > before; i++) nanosleep(&ts, NULL);
+    nanosleep(&ts, NULL);
+}
 static void st_foreign(void) { pthread_t th; if (pthread_create(&th, NULL, foreign_thread, NULL) == 0) pthread_join(th, NULL); }
 static void st_locks(void) { PMutex *m = p_mutex_new(); PCondVariable *c = p_cond_variable_new(); PSpinLock *s = p_spinlock_new(); PRWLock *r = p_rwlock_new(); if (m) { p_mutex_lock(m); p_mutex_unlock(m); } if (r) { p_rwlock_writer_lock(r); p_rwlock_writer_unlock(r); } p_mutex_free(m); p_cond_variable_free(c); p_spinlock_free(s); p_rwlock_free(r); }
 static void st_lib(void) { PLibraryLoader *l = p_library_loader_new("libm.so.6"); pchar *e; if (!l) l = p_library_loader_new("/lib/x86_64-linux-gnu/libm.so.6"); if (l) (void)p_library_loader_get_symbol(l, "cos"); p_library_loader_free(l); l = p_library_loader_new("/nonexistent.so"); p_library_loader_free(l); l = p_library_loader_new(junk_path); e = p_library_loader_get_last_error(l); p_free(e); p_library_loader_free(l); }
